@@ -92,6 +92,9 @@ type Question struct {
 
 // DecodeQuestion returns the first question in the DNS packet
 func DecodeQuestion(p DNS, index int, buffer []byte) (question Question, off int, err error) {
+	if err := p.IsValid(); err != nil {
+		return Question{}, -1, err
+	}
 	if p.QDCount() != 1 { // assume a single question
 		return Question{}, -1, ErrParseFrame
 	}
@@ -146,6 +149,9 @@ func NewDNSEntry() (entry DNSEntry) {
 // not goroutine safe:
 //   must acquire lock before calling as function will update maps
 func (e *DNSEntry) DecodeAnswers(p DNS, offset int, buffer []byte) (int, bool, error) {
+	if err := p.IsValid(); err != nil {
+		return 0, false, err
+	}
 	return e.decodeRRs(int(p.ANCount()), p, offset, buffer)
 }
 
